@@ -226,6 +226,35 @@ def replay_case(arg):
                     record["outcome"] = "graph"
                     return ("violation", record, f"builder tasks/edges {got_nodes} {got_edges} != declared {case['nodes']} {exp_edges}", None)
                 wf = Workflow(wb)
+                # graph queries of the common base class, on the builder and on the frozen workflow, against the
+                # specification's Queries / Sinks / Sources (Workflow.tla)
+                if "queries" in case:
+                    bn = _seqlist(op["bnodes"])
+                    exp_in = [n for n in bn if n in set(_seqlist(case["sources"]))]
+                    exp_out = [n for n in bn if n in set(_seqlist(case["sinks"]))]
+                    for label, g in (("builder", wb), ("workflow", wf)):
+                        got_in = [tid_of(t) for t in g.input_tasks]
+                        got_out = [tid_of(t) for t in g.output_tasks]
+                        bad = None
+                        if got_in != exp_in:
+                            bad = f"{label}.input_tasks {got_in} != specification {exp_in}"
+                        elif got_out != exp_out:
+                            bad = f"{label}.output_tasks {got_out} != specification {exp_out}"
+                        elif len(g) != len(bn):
+                            bad = f"len({label}) {len(g)} != {len(bn)}"
+                        else:
+                            for q in _seqlist(case["queries"]):
+                                t = tasks[q["t"]]
+                                for key, fn in (("p", g.get_predecessors), ("s", g.get_successors), ("u", g.get_upstream_tasks)):
+                                    got = sorted({tid_of(x) for x in fn(t)})
+                                    if got != sorted(_seqlist(q[key])):
+                                        bad = f"{label}.{fn.__name__}({q['t']}) {got} != specification {sorted(_seqlist(q[key]))}"
+                                        break
+                                if bad:
+                                    break
+                        if bad:
+                            record["outcome"] = "query"
+                            return ("violation", record, bad, None)
                 with tempfile.TemporaryDirectory(prefix="c17-") as tmp:
                     ctx = LocalDirectoryContext("ctx", tmp)
                     ctxbox["ctx"] = ctx
